@@ -208,7 +208,12 @@ impl Recovery {
             RecoveryPhase::IgnoringUntilRecoveryPoint { recovery_point } => {
                 if header.ack_nr >= *recovery_point {
                     event!(RECOVERY_TRACING_LOG_LEVEL, ?recovery_point, ?header.ack_nr, "exiting IgnoringUntilRecoveryPoint");
-                    self.phase = RecoveryPhase::CountingDuplicates { dup_acks: 0 }
+                    self.phase = RecoveryPhase::CountingDuplicates { dup_acks: 0 };
+                    // ACKs repeating this one are duplicates of it.
+                    self.last_ack = Some(LastAck {
+                        window: header.wnd_size,
+                        ack_nr: header.ack_nr,
+                    });
                 }
             }
             RecoveryPhase::CountingDuplicates { dup_acks } => {
@@ -280,6 +285,11 @@ impl Recovery {
                     event!(RECOVERY_TRACING_LOG_LEVEL, ?rec.recovery_point, ?header.ack_nr, prev_cwnd=rec.cwnd,
                         ?congestion_controller, ?rec.total_retransmitted_segments, ?rtt, "exited recovery");
                     self.phase = RecoveryPhase::CountingDuplicates { dup_acks: 0 };
+                    // ACKs repeating this one are duplicates of it.
+                    self.last_ack = Some(LastAck {
+                        window: header.wnd_size,
+                        ack_nr: header.ack_nr,
+                    });
                 }
             }
         }
